@@ -21,7 +21,7 @@ ASSUMPTIONS = [
     "detections may have one node or every node missing (NaN) in the dedicated jobs (quick: K=2 depth 3; thorough: K=2 depth 4)",
     "animals sit at fixed, well separated positions (no drift) so that the canonical state is small; identity questions are C10's",
     "canonical-state merging assumes the next track() reads only tracker_queue, current_tracks and the new detections; validated in-run on a 1-in-53 subset of merged pairs (both representatives extended by every event must agree) and by replaying a 1-in-11 subset of histories on fresh trackers",
-    "bounds: quick depth 4, K=3, window 2, threshold 0, 12 method x matcher x feature configurations; thorough depth 5 (K=3) and depth 6 (K=2) over 72 configurations x reductions {mean,max} incl. low-score detections against threshold 0.5",
+    "bounds: quick depth 4, K=3, window 2, threshold 0, 12 method x matcher x feature configurations; thorough depth 5 (K=3; depth 4 with low-score marks against threshold 0.5) and depth 6 (K=2) over 72 configurations x reductions {mean,max}",
     "FlowShiftTracker (use_flow) and image features are outside the property's configuration list",
 ]
 
@@ -105,11 +105,13 @@ def run(ctx):
         ctx.bounds = {"depth": 4, "K": 3, "configs": len(cfgs), "events_per_frame": 16}
     else:
         cfgs = T.all_configs(windows=[1, 2, 3], thresholds=[0.0, 0.5], reductions=("mean", "max"))
-        jobs = [(c, 3, 5, c["instance_score_threshold"] > 0) for c in cfgs]
+        jobs = [(c, 3, 5, False) for c in cfgs]
+        # low-score marks triple the event alphabet (49 events per frame): depth 4 for K=3, depth 6 for K=2
+        jobs += [(c, 3, 4, True) for c in cfgs if c["instance_score_threshold"] > 0]
         jobs += [(c, 2, 6, c["instance_score_threshold"] > 0) for c in cfgs]
         # detections with missing nodes: one node NaN ('p') or every node NaN ('n')
         jobs += [(c, 2, 4, False, True) for c in cfgs if c["instance_score_threshold"] == 0]
-        ctx.bounds = {"depth_K3": 5, "depth_K2": 6, "configs": len(cfgs), "events_per_frame": "16 (49 with low-score marks when threshold 0.5)"}
+        ctx.bounds = {"depth_K3": 5, "depth_K3_with_low_score_marks": 4, "depth_K2": 6, "depth_K2_with_missing_nodes": 4, "configs": len(cfgs), "events_per_frame": "16 (49 with low-score marks when threshold 0.5)"}
     jobs = core.rotate(jobs, ctx.seed)
     core.pmap(ctx, work, [[j] for j in jobs])
 
